@@ -261,6 +261,8 @@ fn limits_for(class: &str, q: &Joints, w: f64, r: &mut StdRng) -> Option<(Joints
             "wide" => wide(q[j]),
             "narrow" => narrow(q[j]),
             "wrap" => { let (a, b) = wrapr(q[j]); if a > b { (a, b) } else { wide(q[j]) } }
+            // windows of more than a full turn on some joints (+-270, +-350 degrees, or shifted), wide ones on the others
+            "beyond-turn" => match r.gen_range(0..3) { 0 => (-4.7, 4.7), 1 => { let c = r.gen_range(-0.5..0.5); (c - 6.1, c + 6.1) } _ => wide(q[j]) },
             "some-equal" => match r.gen_range(0..3) { 0 => { let v = r.gen_range(-3.0..3.0); (v, v) } 1 => narrow(q[j]), _ => wide(q[j]) },
             _ => if j == (q[0].abs() * 1000.0) as usize % 6 { (q[j] + 0.5, q[j] + 0.8) } else { wide(q[j]) },
         };
